@@ -464,3 +464,121 @@ pub(crate) fn k_sub_wasted_excess() {
         vk_assert!(res.is_ok(), "legal wasted-bits count rejected");
     }
 }
+
+// ------------------------------------------------------------------ read_subframes (channel decorrelation)
+//
+// contract (RFC 9639 §9.2.3 / §4.2): for a frame whose subframes are the RFC coding of the channel
+// pair chosen by the assignment (left/side, side/right, mid/side of (l, r); side one bit wider),
+// Ok(()), buffer == [l..., r...], frame padded to a byte and the 16 CRC bits skipped.
+use crate::audio::verif_k::{frame_samples, frame_shape};
+use crate::stream::{BitsPerSample, BlockSize, ChannelAssignment, FrameHeader, FrameNumber, Independent, SampleRate};
+
+fn hdr(bps: u32, block: u16, ca: ChannelAssignment) -> FrameHeader {
+    FrameHeader {
+        blocking_strategy: false,
+        block_size: BlockSize::Uncommon8(block),
+        sample_rate: SampleRate::Hz44100,
+        channel_assignment: ca,
+        bits_per_sample: BitsPerSample::from(sbc::<32>(bps)),
+        frame_number: FrameNumber(0),
+    }
+}
+
+fn gen_verbatim<const N: usize>(t: &mut Tape<N>, bits: u32, x: &[i64]) {
+    specenc::gen_subframe_header(t, specenc::T_VERBATIM, false, 0);
+    let mut i = 0;
+    while i < x.len() {
+        t.preload(K_S, bits, x[i] as u64);
+        i += 1;
+    }
+}
+
+fn gen_frame_tail<const N: usize>(t: &mut Tape<N>, bits_so_far: u32) {
+    if bits_so_far % 8 != 0 {
+        t.preload(crate::verif_k::tape::K_ALIGN, 8 - bits_so_far % 8, 0);
+    }
+    t.preload(crate::verif_k::tape::K_SKIP, 16, 0);
+}
+
+macro_rules! k_read_subframes_valid {
+    ($name:ident, $bps:expr, $ca:expr, $which:expr, $unw:expr) => {
+        #[kani::proof]
+        #[kani::unwind($unw)]
+        pub(crate) fn $name() {
+            const B: usize = 2;
+            let mut l = [0i64; B];
+            let mut r = [0i64; B];
+            let mut i = 0;
+            while i < B { l[i] = any_i64_within($bps); r[i] = any_i64_within($bps); i += 1; }
+            let mut c0 = [0i64; B];
+            let mut c1 = [0i64; B];
+            let (w0, w1): (u32, u32) = match $which { 1 => ($bps, $bps + 1), 2 => ($bps + 1, $bps), 3 => ($bps, $bps + 1), _ => ($bps, $bps) };
+            let mut i = 0;
+            while i < B {
+                match $which {
+                    1 => { c0[i] = l[i]; c1[i] = spec::side_of(l[i], r[i]); }
+                    2 => { c0[i] = spec::side_of(l[i], r[i]); c1[i] = r[i]; }
+                    3 => { c0[i] = spec::mid_of(l[i], r[i]); c1[i] = spec::side_of(l[i], r[i]); }
+                    _ => { c0[i] = l[i]; c1[i] = r[i]; }
+                }
+                i += 1;
+            }
+            let mut tape: Tape<16> = Tape::new();
+            gen_verbatim(&mut tape, w0, &c0);
+            gen_verbatim(&mut tape, w1, &c1);
+            gen_frame_tail(&mut tape, 2 * 8 + (B as u32) * (w0 + w1));
+            let h = hdr($bps, B as u16, $ca);
+            let mut buf = Frame::default();
+            let res = read_subframes(&mut tape, &h, &mut buf);
+            vk_assert!(!tape.shape_mismatch, "read_subframes: field grammar differs from RFC 9639 9.2");
+            vk_assert!(res.is_ok(), "read_subframes rejected a valid frame body");
+            let s = frame_samples(&buf);
+            vk_assert!(s.len() == 2 * B, "frame buffer holds channels x block samples");
+            let mut i = 0;
+            while i < B {
+                vk_assert!(s[i] as i64 == l[i], "left channel not restored");
+                vk_assert!(s[B + i] as i64 == r[i], "right channel not restored");
+                i += 1;
+            }
+            vk_assert!(frame_shape(&buf) == (2, B, $bps), "frame shape (channels, block size, bits-per-sample) as in the header");
+            vk_assert!(tape.consumed_all(), "frame body, padding and CRC field consumed exactly");
+        }
+    };
+}
+k_read_subframes_valid!(k_frames_valid_indep_16, 16, ChannelAssignment::Independent(Independent::Stereo), 0, 5);
+k_read_subframes_valid!(k_frames_valid_ls_16, 16, ChannelAssignment::LeftSide, 1, 5);
+k_read_subframes_valid!(k_frames_valid_sr_16, 16, ChannelAssignment::SideRight, 2, 5);
+k_read_subframes_valid!(k_frames_valid_ms_16, 16, ChannelAssignment::MidSide, 3, 5);
+k_read_subframes_valid!(k_frames_valid_ls_31, 31, ChannelAssignment::LeftSide, 1, 5);
+k_read_subframes_valid!(k_frames_valid_ms_31, 31, ChannelAssignment::MidSide, 3, 5);
+k_read_subframes_valid!(k_frames_valid_ls_32, 32, ChannelAssignment::LeftSide, 1, 5);
+k_read_subframes_valid!(k_frames_valid_sr_32, 32, ChannelAssignment::SideRight, 2, 5);
+k_read_subframes_valid!(k_frames_valid_ms_32, 32, ChannelAssignment::MidSide, 3, 5);
+
+// contract: read_subframes never panics on arbitrary (in-width) subframe contents — all values
+macro_rules! k_read_subframes_total {
+    ($name:ident, $bps:expr, $ca:expr, $w0:expr, $w1:expr, $unw:expr) => {
+        #[kani::proof]
+        #[kani::unwind($unw)]
+        pub(crate) fn $name() {
+            const B: usize = 2;
+            let mut c0 = [0i64; B];
+            let mut c1 = [0i64; B];
+            let mut i = 0;
+            while i < B { c0[i] = any_i64_within($w0); c1[i] = any_i64_within($w1); i += 1; }
+            let mut tape: Tape<16> = Tape::new();
+            gen_verbatim(&mut tape, $w0, &c0);
+            gen_verbatim(&mut tape, $w1, &c1);
+            gen_frame_tail(&mut tape, 2 * 8 + (B as u32) * ($w0 + $w1));
+            let h = hdr($bps, B as u16, $ca);
+            let mut buf = Frame::default();
+            let res = read_subframes(&mut tape, &h, &mut buf);
+            vk_assert!(res.is_ok(), "well-formed frame body rejected");
+        }
+    };
+}
+k_read_subframes_total!(k_frames_total_ls_31, 31, ChannelAssignment::LeftSide, 31, 32, 5);
+k_read_subframes_total!(k_frames_total_sr_31, 31, ChannelAssignment::SideRight, 32, 31, 5);
+k_read_subframes_total!(k_frames_total_ms_31, 31, ChannelAssignment::MidSide, 31, 32, 5);
+k_read_subframes_total!(k_frames_total_ms_32, 32, ChannelAssignment::MidSide, 32, 33, 5);
+k_read_subframes_total!(k_frames_total_ls_32, 32, ChannelAssignment::LeftSide, 32, 33, 5);
